@@ -603,6 +603,33 @@ fn preempted_request(index: u64, ctx: &mut Ctx) -> Outcome {
     Ok(())
 }
 
+/// A genuine reply of the server that its client has already received once - the challenge at the client that is answering it, the
+/// accepting keep-alive at the connected client - is presented again after some time (an on-path party replays it): a datagram
+/// presented for the second time is not authentic, nothing may change, in particular not the time since the last received packet.
+fn replayed_reply(index: u64, ctx: &mut Ctx) -> Outcome {
+    let dt = Duration::from_millis([300u64, 1000, 3000][(index % 3) as usize]);
+    let (c, kind) = if (index / 3) % 2 == 0 { (P, 2u8) } else { (C, 4u8) };
+    let times = 1 + (index / 6) % 2;
+    let mut nw = stage(7, 15)?;
+    ctx.op(&("replayed_reply", c, kind, dt.as_millis() as u64, times));
+    let Some(did) = nw.pool.iter().position(|d| d.kind == kind && d.to == client_addr(c) && d.presented > 0 && matches!(d.from, Emitter::Server(0))) else {
+        return Err(Fail::new("stage", format!("no delivered datagram of kind {kind} for client {c} in the staged world")).sig("harness_io"));
+    };
+    let bytes = nw.pool[did].bytes.clone();
+    for round in 0..times {
+        // time passes on every clock; what the endpoints emit meanwhile is not delivered
+        nw.now += dt;
+        nw.server_advance(0, dt);
+        for i in 0..nw.clients.len() {
+            nw.client_update(i, dt);
+        }
+        present_forged(&mut nw, Target::Client(c), &bytes, &format!("the server's own datagram of kind {kind}, delivered once before, presented again {} ms later (round {round})", dt.as_millis()))?;
+    }
+    ctx.label("replayed_reply");
+    ctx.nontrivial = true;
+    Ok(())
+}
+
 const SEALED_LENS: [usize; 17] = [0, 1, 7, 8, 9, 100, 299, 300, 301, 307, 308, 309, 400, 1200, 1300, 1301, 1382];
 
 /// A peer that holds a session key (anybody with a valid token does) seals a datagram of any kind around a body of any length - sealed
@@ -719,7 +746,7 @@ impl Property for C07 {
         "exploration"
     }
     fn rule(&self) -> String {
-        "Floods (enumerated): every target endpoint is handed all 256 prefix bytes twice in a row at each length class, 512 hostile datagrams with nothing genuine in between, under the same per-datagram oracles, then genuine traffic must still work. A case stages a secure server holding every protocol state at once (unknown address, pending address, connected victim, connected bystander; clients requesting, responding, connected, disconnected) and presents non-authentic datagrams to the server from every source-address class and to every client: mutations (bit flips in prefix / sequence / body / tag, truncations, extensions, prefix replacement) of genuine datagrams of any session and direction, genuine datagrams replayed or presented at the wrong endpoint, well-formed prefixes with boundary lengths and all-zero / all-ff sequence bytes, random bytes 0..1400; silence is interleaved so a refreshed timer shows. Enumerated: all 256 prefix bytes x 13 boundary lengths x 2 fills x 7 targets; every single-bit flip and every truncation of eight fresh genuine datagrams (payload, keep-alive, response, challenge, request; both directions) presented to the live endpoint they were meant for. Pre-empted requests (enumerated): a damaged copy of a fresh client's request (one bit flipped in the header, the nonce or the sealed token, the trailing tag intact; 130 positions) is presented from an unknown, the pending or the connected address before the genuine request arrives - nothing may change and the genuine handshake from the client's own address must complete. Sealed bodies (enumerated): a peer holding a session key (the pending client, the connected client, the server towards each of them) seals every packet kind 1..15 around bodies of 17 lengths from 0 to 1382 bytes (all-zero and pseudo-random) with a fresh sequence number - authentic datagrams whose body has the wrong size for their kind; no-unwind clause only. Tokens: raw bytes and field-wise mutations of valid serialisations (address count 0/33/2^32-1, 32..300 well-formed entries with and without NONE entries, type tags 0/1/2/3/255, expire < create, zero/negative timeouts, truncations) through ConnectToken::read -> NetcodeClient::new -> update / process_packet / generate_payload_packet / disconnect. Sealed hostile tokens: connection requests whose private token is sealed correctly - an unsecure server's key is public, a secure server's backend may err - around a hostile plaintext (0..100 well-formed address entries with the server's own address first, last, at slot 31 or nowhere, lying counts, unknown type tags, up to 40 NONE entries, random bytes; timeouts 0, negative, i32 extremes; ids 0, 2^63, 2^64-1; expiry at, around and far beyond the server second, clocks 0 and 2^33 s), answered as the client would (response sealed with the key the plaintext names) and the resulting session driven through updates of 0 ms .. 2^32 ms, repeated requests, payloads, keep-alives and accessors - no-unwind clause only. Oracles: no call unwinds (overflow checks on); a non-authentic datagram (by provenance) yields neither Payload nor ClientConnected nor ClientDisconnected, client process_packet returns None, and the snapshot of clients_id / connected_clients / per-client addr, user data, connectedness and time_since_last_received_packet (server) and connected / connecting / reason / time_since_last_received_packet / server_addr (every client) is unchanged; afterwards a genuine payload still surfaces in both directions and the pending client completes its handshake. Non-trivial: a datagram of >= 18 bytes presented from a known address or to a client past the request state (reaches the keyed decode path), or a mutated token that parses. Distinct = hash of the decoded case.".into()
+        "Floods (enumerated): every target endpoint is handed all 256 prefix bytes twice in a row at each length class, 512 hostile datagrams with nothing genuine in between, under the same per-datagram oracles, then genuine traffic must still work. A case stages a secure server holding every protocol state at once (unknown address, pending address, connected victim, connected bystander; clients requesting, responding, connected, disconnected) and presents non-authentic datagrams to the server from every source-address class and to every client: mutations (bit flips in prefix / sequence / body / tag, truncations, extensions, prefix replacement) of genuine datagrams of any session and direction, genuine datagrams replayed or presented at the wrong endpoint, well-formed prefixes with boundary lengths and all-zero / all-ff sequence bytes, random bytes 0..1400; silence is interleaved so a refreshed timer shows. Enumerated: all 256 prefix bytes x 13 boundary lengths x 2 fills x 7 targets; every single-bit flip and every truncation of eight fresh genuine datagrams (payload, keep-alive, response, challenge, request; both directions) presented to the live endpoint they were meant for. Replayed replies (enumerated): the challenge at the client answering it and the accepting keep-alive at the connected client, delivered once before, are presented again 0.3 / 1 / 3 s later, once or twice - nothing may change, the time since the last received packet included. Pre-empted requests (enumerated): a damaged copy of a fresh client's request (one bit flipped in the header, the nonce or the sealed token, the trailing tag intact; 130 positions) is presented from an unknown, the pending or the connected address before the genuine request arrives - nothing may change and the genuine handshake from the client's own address must complete. Sealed bodies (enumerated): a peer holding a session key (the pending client, the connected client, the server towards each of them) seals every packet kind 1..15 around bodies of 17 lengths from 0 to 1382 bytes (all-zero and pseudo-random) with a fresh sequence number - authentic datagrams whose body has the wrong size for their kind; no-unwind clause only. Tokens: raw bytes and field-wise mutations of valid serialisations (address count 0/33/2^32-1, 32..300 well-formed entries with and without NONE entries, type tags 0/1/2/3/255, expire < create, zero/negative timeouts, truncations) through ConnectToken::read -> NetcodeClient::new -> update / process_packet / generate_payload_packet / disconnect. Sealed hostile tokens: connection requests whose private token is sealed correctly - an unsecure server's key is public, a secure server's backend may err - around a hostile plaintext (0..100 well-formed address entries with the server's own address first, last, at slot 31 or nowhere, lying counts, unknown type tags, up to 40 NONE entries, random bytes; timeouts 0, negative, i32 extremes; ids 0, 2^63, 2^64-1; expiry at, around and far beyond the server second, clocks 0 and 2^33 s), answered as the client would (response sealed with the key the plaintext names) and the resulting session driven through updates of 0 ms .. 2^32 ms, repeated requests, payloads, keep-alives and accessors - no-unwind clause only. Oracles: no call unwinds (overflow checks on); a non-authentic datagram (by provenance) yields neither Payload nor ClientConnected nor ClientDisconnected, client process_packet returns None, and the snapshot of clients_id / connected_clients / per-client addr, user data, connectedness and time_since_last_received_packet (server) and connected / connecting / reason / time_since_last_received_packet / server_addr (every client) is unchanged; afterwards a genuine payload still surfaces in both directions and the pending client completes its handshake. Non-trivial: a datagram of >= 18 bytes presented from a known address or to a client past the request state (reaches the keyed decode path), or a mutated token that parses. Distinct = hash of the decoded case.".into()
     }
     fn assumptions(&self) -> Vec<String> {
         vec![
@@ -731,11 +758,11 @@ impl Property for C07 {
         PbtCfg { cases: tier.pick(150_000, 3_000_000), max_len: tier.pick(600, 1800), shrink_ms: 120_000 }
     }
     fn required_labels(&self) -> Vec<&'static str> {
-        vec!["keyed_path", "at_unknown", "at_pending", "at_connected", "at_client", "token_case", "token_parsed", "token_many_entries", "sealed_token_case", "sealed_token_answered", "sealed_token_connected", "flood", "sealed_body", "preempted_request"]
+        vec!["keyed_path", "at_unknown", "at_pending", "at_connected", "at_client", "token_case", "token_parsed", "token_many_entries", "sealed_token_case", "sealed_token_answered", "sealed_token_connected", "flood", "sealed_body", "preempted_request", "replayed_reply"]
     }
     fn enums(&self, _tier: Tier) -> Vec<(&'static str, u64)> {
         // genuine_tamper: 8 sample datagrams x (every bit of the first 360 bytes + every truncation up to 360)
-        vec![("prefix_length_grid", 256 * 13 * 2 * 7), ("genuine_tamper", 8 * (360 * 8 + 360)), ("floods", 13 * 2 * 7), ("sealed_bodies", 4 * 15 * SEALED_LENS.len() as u64), ("preempted_request", 3 * 130)]
+        vec![("prefix_length_grid", 256 * 13 * 2 * 7), ("genuine_tamper", 8 * (360 * 8 + 360)), ("floods", 13 * 2 * 7), ("sealed_bodies", 4 * 15 * SEALED_LENS.len() as u64), ("preempted_request", 3 * 130), ("replayed_reply", 12)]
     }
     fn run_enum(&self, name: &str, index: u64, ctx: &mut Ctx) -> Outcome {
         if name == "genuine_tamper" {
@@ -746,6 +773,9 @@ impl Property for C07 {
         }
         if name == "preempted_request" {
             return preempted_request(index, ctx);
+        }
+        if name == "replayed_reply" {
+            return replayed_reply(index, ctx);
         }
         if name == "floods" {
             // the same endpoint is handed all 256 prefix bytes twice in a row (512 hostile datagrams, nothing genuine in between):
